@@ -986,6 +986,152 @@ theorem C20_residual_readonly_counterexample :
     norm_num
 
 
+/-! ## time points: the band at `t` is made of the rows at exactly `t`
+
+Two different doubles are two time points, however close (a grid resolving an event with a point
+just before it, solver output with tiny steps).  -/
+section times
+variable {τ : Type} [DecidableEq τ]
+
+theorem samplesAtBy_eqM (rows : List (Option τ × Option ℝ)) (t : Option τ) :
+    samplesAtBy eqM rows t = samplesAt rows t := rfl
+
+theorem bandRowsBy_eqM (rows : List (Option τ × Option ℝ)) (p : ℝ) :
+    bandRowsBy eqM rows p = bandRows rows p := rfl
+
+theorem samplesAt_rowsAt (rows : List (Option τ × Option ℝ)) (t : τ) :
+    samplesAt rows (some t) = (rowsAt rows t).filterMap (·.2) := by
+  unfold samplesAt rowsAt
+  congr 1
+  apply List.filter_congr
+  intro r _
+  exact eqM_some r.1 t
+
+/-- **the band at a time point is a function of the rows carrying exactly that time**: two sample
+    frames with the same rows at `t` get the same limits at `t`, whatever other time points (however
+    close to `t`) they hold -/
+theorem C20_band_time_local (rows rows' : List (Option τ × Option ℝ)) (p : ℝ) (t : τ)
+    (h : rowsAt rows t = rowsAt rows' t) : bandRow rows p (some t) = bandRow rows' p (some t) := by
+  unfold bandRow
+  rw [samplesAt_rowsAt, samplesAt_rowsAt, h]
+
+/-- rows of other time points inserted anywhere do not move the band at `t` -/
+theorem C20_band_ignores_other_times (rows extra : List (Option τ × Option ℝ)) (p : ℝ) (t : τ)
+    (h : ∀ r ∈ extra, r.1 ≠ some t) :
+    bandRow (rows ++ extra) p (some t) = bandRow rows p (some t) ∧
+    bandRow (extra ++ rows) p (some t) = bandRow rows p (some t) := by
+  have he : rowsAt extra t = [] := by
+    unfold rowsAt
+    rw [List.filter_eq_nil_iff]
+    intro r hr
+    simpa using h r hr
+  constructor <;> apply C20_band_time_local <;> unfold rowsAt at * <;> rw [List.filter_append, he] <;> simp
+
+/-- **per time point, end to end**: every row `(t, lower, upper)` of the percentile container with
+    both limits present has limits that are samples of rows with time exactly `t`, enclosing more
+    than `p·n_t` of the `n_t` non-missing samples at exactly `t` -/
+theorem C20_band_at_time (rows : List (Option τ × Option ℝ)) (p : ℝ) (t : τ) (lo hi : ℝ)
+    (h : (some t, some lo, some hi) ∈ bandRows rows p) :
+    (some t, some lo) ∈ rows ∧ (some t, some hi) ∈ rows ∧
+    p * ((samplesAt rows (some t)).length : ℝ) < (inside (samplesAt rows (some t)) lo hi : ℝ) := by
+  unfold bandRows at h
+  obtain ⟨t', _, ht'⟩ := List.mem_map.mp h
+  unfold bandRow at ht'
+  simp only [Prod.mk.injEq] at ht'
+  obtain ⟨h1, h2, h3⟩ := ht'
+  subst h1
+  obtain ⟨m1, m2⟩ := C20_band_limits_are_samples _ p lo hi h2 h3
+  exact ⟨(samplesAt_mem rows t lo).mp m1, (samplesAt_mem rows t hi).mp m2,
+    C20_band_encloses _ p lo hi h2 h3⟩
+
+/-- a rewritten time mask draws the same bands **iff-direction that matters**: it suffices that it
+    agrees with `==` on the time points that occur in the frame (e.g. a tolerance smaller than the
+    smallest gap between two different time points of the frame) -/
+theorem C20_band_mask_exact (sel : Option τ → Option τ → Bool) (rows : List (Option τ × Option ℝ))
+    (p : ℝ) (hsel : ∀ r ∈ rows, ∀ r' ∈ rows, sel r.1 r'.1 = eqM r.1 r'.1) :
+    bandRowsBy sel rows p = bandRows rows p := by
+  unfold bandRowsBy bandRows
+  apply List.map_congr_left
+  intro t ht
+  rw [mem_uniq] at ht
+  obtain ⟨r', hr', rfl⟩ := List.mem_map.mp ht
+  unfold bandRowBy bandRow samplesAtBy samplesAt
+  have : rows.filter (fun r => sel r.1 r'.1) = rows.filter (fun r => eqM r.1 r'.1) :=
+    List.filter_congr (fun r hr => hsel r hr r' hr')
+  rw [this]
+
+end times
+
+/-- tolerance zero is `==` -/
+theorem withinM_zero (a b : Option Nat) : withinM 0 a b = eqM a b := by
+  cases a <;> cases b <;> simp [withinM, eqM]
+  rename_i x y
+  by_cases h : x = y
+  · subst h; simp
+  · simp only [h, decide_false]
+    rcases Nat.lt_or_gt_of_ne h with h' | h'
+    · simp [Nat.not_le.mpr h']
+    · simp [Nat.not_le.mpr h']
+
+/-- hence the tolerant figure with tolerance zero is the figure of the code as it is -/
+theorem bandRowsBy_withinM_zero (rows : List (Option Nat × Option ℝ)) (p : ℝ) :
+    bandRowsBy (withinM 0) rows p = bandRows rows p :=
+  C20_band_mask_exact _ rows p (fun r _ r' _ => withinM_zero r.1 r'.1)
+
+/-- a tolerance mask that pools two different time points (one tick apart, tolerance one tick):
+    both stay on the time axis, but the limits drawn at time `0` come from the union of the samples —
+    the upper limit `7` is no sample of time `0` and `[2, 7]` holds 1 of the 4 samples at that time,
+    less than the requested half. The code as it is (`==`) draws `[1, 9]`. -/
+theorem C20_band_pooled_times_counterexample :
+    let rows : List (Option Nat × Option ℝ) :=
+      [(some 0, some 1), (some 1, some 4), (some 0, some 2), (some 1, some 5), (some 0, some 9),
+       (some 1, some 6), (some 0, some 10), (some 1, some 7)]
+    bandRowsBy (withinM 1) rows (1 / 2) = [(some 0, some 2, some 7), (some 1, some 2, some 7)] ∧
+    (some 0, some (7 : ℝ)) ∉ rows ∧
+    samplesAt rows (some 0) = [1, 2, 9, 10] ∧
+    inside ([1, 2, 9, 10] : List ℝ) 2 7 = 1 ∧
+    ((inside ([1, 2, 9, 10] : List ℝ) 2 7 : ℕ) : ℝ) < 1 / 2 * (([1, 2, 9, 10] : List ℝ).length : ℝ) ∧
+    bandRows rows (1 / 2) = [(some 0, some 1, some 9), (some 1, some 4, some 6)] := by
+  intro rows
+  have hpool : ∀ t : Option Nat, t = some 0 ∨ t = some 1 →
+      samplesAtBy (withinM 1) rows t = ([1, 4, 2, 5, 9, 6, 10, 7] : List ℝ) := by
+    rintro t (rfl | rfl) <;> simp [rows, samplesAtBy, withinM]
+  have h0 : samplesAt rows (some 0) = ([1, 2, 9, 10] : List ℝ) := by
+    simp [rows, samplesAt, eqM]
+  have h1 : samplesAt rows (some 1) = ([4, 5, 6, 7] : List ℝ) := by
+    simp [rows, samplesAt, eqM]
+  have hu : uniq (rows.map (·.1)) = [some 0, some 1] := by
+    simp [rows, uniq]
+  have lim8 : lowerLimit ([1, 4, 2, 5, 9, 6, 10, 7] : List ℝ) (1 / 2) = some 2 ∧
+      upperLimit ([1, 4, 2, 5, 9, 6, 10, 7] : List ℝ) (1 / 2) = some 7 := by
+    constructor <;>
+    norm_num [lowerLimit, upperLimit, pctRank, lowerThr, upperThr, maxOpt, minOpt, eqS,
+      List.filter_cons, List.countP_cons]
+  have lim0 : lowerLimit ([1, 2, 9, 10] : List ℝ) (1 / 2) = some 1 ∧
+      upperLimit ([1, 2, 9, 10] : List ℝ) (1 / 2) = some 9 := by
+    constructor <;>
+    norm_num [lowerLimit, upperLimit, pctRank, lowerThr, upperThr, maxOpt, minOpt, eqS,
+      List.filter_cons, List.countP_cons]
+  have lim1 : lowerLimit ([4, 5, 6, 7] : List ℝ) (1 / 2) = some 4 ∧
+      upperLimit ([4, 5, 6, 7] : List ℝ) (1 / 2) = some 6 := by
+    constructor <;>
+    norm_num [lowerLimit, upperLimit, pctRank, lowerThr, upperThr, maxOpt, minOpt, eqS,
+      List.filter_cons, List.countP_cons]
+  have hin : inside ([1, 2, 9, 10] : List ℝ) 2 7 = 1 := by
+    norm_num [inside, List.countP_cons]
+  refine ⟨?_, ?_, h0, hin, ?_, ?_⟩
+  · unfold bandRowsBy bandRowBy
+    rw [hu]
+    simp only [List.map_cons, List.map_nil]
+    rw [hpool _ (Or.inl rfl), hpool _ (Or.inr rfl), lim8.1, lim8.2]
+  · norm_num [rows]
+  · rw [hin]; norm_num
+  · unfold bandRows bandRow
+    rw [hu]
+    simp only [List.map_cons, List.map_nil]
+    rw [h0, h1, lim0.1, lim0.2, lim1.1, lim1.2]
+
+
 /-! ## non-vacuity: both limits exist and the hypotheses of the band theorems are satisfiable -/
 example : lowerLimit ([1, 2, 3, 4] : List ℝ) (1 / 2) = some 1 ∧
     upperLimit ([1, 2, 3, 4] : List ℝ) (1 / 2) = some 3 := by
